@@ -135,6 +135,7 @@ def alto_cfgs(ctx):
             dict(base, name="arabic", Mode="line", Classes=["A", "B", "C", "a", "n", "s", "d", "w"], MaxLen=4,
                  Situations=["peaky", "tight", "short", "nochars"], variety=1, variety_sits=["peaky", "nochars"]),
             dict(base, name="arabic5", Mode="line", Classes=ARAB, MaxLen=5, Situations=["peaky", "short"]),
+            dict(base, name="arabic-latin-run", Mode="line", Classes=["A", "a", "b", "s"], MaxLen=6, Situations=["peaky", "short"]),
             dict(base, name="page", Mode="page", Classes=["a", "s"], MaxLen=1, Situations=["peaky", "mid", "nocoords"],
                  MaxBlocks=2, MaxLines=2, minconfs=[0, 500000, 1000000]),
             # two lines in ONE block, Arabic and Latin script mixed, Latin delimiters: per-line state of the export
